@@ -19,7 +19,9 @@ import PromProofs.MergeChunks
     * `chain_seek_spec` — ANY Next/Seek script is answered like a list iterator over the sorted
       de-duplicated union of the inputs' timestamps (`chain_seek_spec_full`);
     * `merge_sets_sorted_unique`, `merge_sets_groups` — the merged series set (`merge_sets_sorted_unique_full`);
-    * `compact_chunks` — the compacting chunk merger (repaired statement).
+    * `compact_chunks` — the compacting chunk merger (repaired statement);
+    * `reencode_chunk_meta_matches_samples` — the re-encoder incl. the cut on a histogram counter reset:
+      every chunk's (MinTime, MaxTime) are its first/last sample time, chunks ordered and disjoint.
   Proved false as literally stated (`…_witness`): `chain_next_total_full` (zero inputs panic) and
   `compact_chunks_full` (the winner among equal timestamps depends on the order of entry into the heap).
 -/
@@ -331,6 +333,70 @@ theorem identical_chunks_collapse_example :
 theorem compact_overlap_example :
     compactAll [[Chunk.ofSamples [⟨1, .float, 1⟩, ⟨5, .float, 2⟩]], [Chunk.ofSamples [⟨3, .float, 7⟩, ⟨5, .float, 8⟩, ⟨6, .float, 9⟩]]]
       = ([Chunk.ofSamples [⟨1, .float, 1⟩, ⟨3, .float, 7⟩, ⟨5, .float, 2⟩, ⟨6, .float, 9⟩]], .fin) := by
+  decide
+
+/-! ### the re-encoder (`seriesToChunkEncoder`) incl. the cut on a native-histogram counter reset -/
+
+/-- `seriesToChunkEncoder.Iterator` (model `encodeChunks`: a new chunk on a change of sample type, after
+    120 samples, or when the (float-)histogram appender hands back a NEW chunk — counter reset, schema
+    change, stale → live, gauge ↔ counter; `mint` is re-armed at every such cut), for ANY strictly
+    increasing sample stream: every produced chunk is non-empty and its meta range is exactly
+    (timestamp of its first sample, timestamp of its last sample); the chunks are time-ordered and pairwise
+    disjoint; concatenated they are the stream (nothing lost, nothing re-ordered).  Independent of where
+    the cuts fall, i.e. of `histNewChunk`. -/
+theorem reencode_chunk_meta_matches_samples (xs : List Sample) (hs : xs.Pairwise (fun a b => a.t < b.t)) :
+    (∀ c ∈ encodeChunks xs, c.samples ≠ [] ∧ c.samples.head?.map (·.t) = some c.mint ∧
+        c.samples.getLast?.map (·.t) = some c.maxt ∧ c.mint ≤ c.maxt) ∧
+      (encodeChunks xs).Pairwise (fun a b => a.maxt < b.mint) ∧
+      (encodeChunks xs).flatMap (·.samples) = xs := by
+  obtain ⟨segs, hne, hflat, henc⟩ := encodeAux_spec xs [] []
+  simp only [List.reverse_nil, List.nil_append] at hflat henc
+  have henc' : encodeChunks xs = segs.map Chunk.ofSamples := henc
+  rw [henc']
+  have hpw := List.pairwise_flatten.1 (hflat ▸ hs : SortedL segs.flatten)
+  have hspec : ∀ seg ∈ segs, _ := fun seg hseg => ofSamples_range seg (hne seg hseg) (hpw.1 seg hseg)
+  refine ⟨?_, ?_, ?_⟩
+  · intro c hc
+    obtain ⟨seg, hseg, rfl⟩ := List.mem_map.1 hc
+    obtain ⟨_, _, _, h4⟩ := hspec seg hseg
+    cases seg with
+    | nil => exact absurd rfl (hne _ hseg)
+    | cons s r =>
+      obtain ⟨b, hb⟩ : ∃ b, (s :: r).getLast? = some b := ⟨_, List.getLast?_eq_some_getLast (by simp)⟩
+      refine ⟨by simp [Chunk.ofSamples], rfl, by simp [Chunk.ofSamples, hb], ?_⟩
+      have := h4 s (by simp)
+      omega
+  · rw [List.pairwise_map]
+    refine List.Pairwise.imp_of_mem ?_ hpw.2
+    intro s1 s2 h1 h2 hr
+    obtain ⟨_, _, ⟨b, hb, hbt⟩, _⟩ := hspec s1 h1
+    obtain ⟨_, ⟨a, ha, hat⟩, _, _⟩ := hspec s2 h2
+    rw [hbt, hat]
+    exact hr b hb a ha
+  · rw [← hflat]
+    clear hflat henc henc' hpw
+    induction segs with
+    | nil => rfl
+    | cons seg segs ih =>
+      have h1 := (hspec seg (by simp)).1
+      simp only [List.map_cons, List.flatMap_cons, List.flatten_cons, h1]
+      rw [ih (fun s hs' => hne s (by simp [hs'])) (fun s hs' => hspec s (by simp [hs']))]
+
+/-- the hypothesis is satisfiable and the cut is taken: the merged stream of two overlapping counter
+    histogram chunks A = {0: count 10, 20: count 12}, B = {10: count 1, 30: count 13} has a counter reset
+    at t = 10, so the re-encoder emits [0,0] and [10,30] — the second chunk's MinTime is 10, not 0. -/
+example : [(⟨0, .hist, 40⟩ : Sample), ⟨10, .hist, 4⟩, ⟨20, .hist, 50⟩, ⟨30, .hist, 54⟩].Pairwise (fun a b => a.t < b.t) := by
+  decide
+
+example : compactAll [[Chunk.ofSamples [⟨0, .hist, 40⟩, ⟨20, .hist, 50⟩]], [Chunk.ofSamples [⟨10, .hist, 4⟩, ⟨30, .hist, 54⟩]]]
+    = ([⟨0, 0, [⟨0, .hist, 40⟩]⟩, ⟨10, 30, [⟨10, .hist, 4⟩, ⟨20, .hist, 48⟩, ⟨30, .hist, 52⟩]⟩], .fin) := by
+  decide
+
+/-- a bucket that only APPEARS recodes the chunk in place (no cut); a used bucket that disappears, a schema
+    change and a live sample after a stale marker cut; a stale marker itself never does -/
+example : (encodeChunks [⟨1, .hist, 4 * 1⟩, ⟨2, .hist, 4 * (1 + 1048576)⟩, ⟨3, .hist, 4 * 2⟩,
+      ⟨4, .hist, 4 * (2 + 4294967296)⟩, ⟨5, .hist, 4 * 8589934592⟩, ⟨6, .hist, 4 * 8589934592⟩, ⟨7, .hist, 4 * 9⟩]).map
+      (fun c => (c.mint, c.maxt)) = [(1, 2), (3, 3), (4, 6), (7, 7)] := by
   decide
 
 end Prom.C19
